@@ -295,19 +295,23 @@ def heater_records(cfg, log, rng, recs, meta, loop=None, hraws=()):
             for raw in hraws:
                 _set_field(st2, sp, raw)
                 shown = h2.target_temperature
-                _set_field(st2, sp, (raw * 7 + 13) % 65536)
-                cap2.calls.clear()
-                try:
-                    if path == "sync":
-                        h2.set_target_temperature(shown)
-                    else:
-                        loop.run_until_complete(h2.async_set_target_temperature(shown))
-                    outcome = "write" if len(cap2.calls) == 1 else "nocall"
-                    word = int(cap2.calls[0][2]) if cap2.calls else -1
-                except Exception as e:  # noqa
-                    outcome, word = f"raised:{type(e).__name__}", -1
-                recs.append({"kind": "write", "raw": raw, "unit": unit, "path": f"heater-{path}", "outcome": outcome, "word": word})
-                meta.append((name, {"shown": shown, "via": "heater setter"}))
+                # the spa's current set point: far away, and one device step to either side of the requested one
+                for start in ((raw * 7 + 13) % 65536, raw + 1, raw - 1):
+                    if not 0 <= start <= 65535 or start == raw:
+                        continue
+                    _set_field(st2, sp, start)
+                    cap2.calls.clear()
+                    try:
+                        if path == "sync":
+                            h2.set_target_temperature(shown)
+                        else:
+                            loop.run_until_complete(h2.async_set_target_temperature(shown))
+                        outcome = "write" if len(cap2.calls) == 1 else "nocall"
+                        word = int(cap2.calls[0][2]) if cap2.calls else -1
+                    except Exception as e:  # noqa
+                        outcome, word = f"raised:{type(e).__name__}", -1
+                    recs.append({"kind": "write", "raw": raw, "unit": unit, "path": f"heater-{path}", "outcome": outcome, "word": word})
+                    meta.append((name, {"shown": shown, "via": "heater setter", "current_raw": start}))
     return 1
 
 
